@@ -14,6 +14,8 @@ What is decided (all without running exp2 on any input):
     1 when floor x <= E -- i.e. 2^floor(x) * (1 + p(frac x)) truncated to the result resolution, with the right
     alignment shifts and the fraction handed to the polynomial exactly.
  Z  evaluate_polynomial(0) == 0 (EQ, the real polynomial): with S this is the clause "exact for integral x".
+ R  rounding_conversion<T>(d), which builds the coefficients, equals (floor(d 2^(N+1)) + 1) >> 1 for every d in [0, 1)
+    (EQ): the table is rounded to nearest, not truncated.
  P  the coefficient table: poly_coeffs<uintN, power<-N>>::a1..a7 are read as constants (engine T) and the polynomial
     they define is compared, in exact rational arithmetic, with 2^t - 1 on the grid t = j / 2^m of inputs
     representable in the finest format; |P(t) - (2^t - 1)| > 12 * 2^-N at such a t would force
@@ -167,6 +169,15 @@ def exp2_obs(tier, rng):
         IM = "cnl::scaled_integer<%s, cnl::power<-%d>>" % (UNS[W], W)
         zs.append(kern.Ob("polynomial-at-zero/%d" % W, UNS[W], [(UNS[W], "a")], "return cnl::_impl::to_rep(cnl::_impl::fp::evaluate_polynomial(cnl::_impl::from_rep<%s>(%s(a - a))));" % (IM, UNS[W]),
                           ["return 0;"], meta={"finding_key": "polynomial-at-zero"}))
+    # the coefficients are converted with rounding to nearest: rep == (floor(d 2^(N+1)) + 1) >> 1 for every d in [0, 1)
+    # (seeded change M-C20-3 dropped the + 1: truncated coefficients, errors of 2-3 units on int32 formats that had at most 1)
+    for W in (8, 16, 32):
+        U = UNS[W]
+        T = "cnl::scaled_integer<%s, cnl::power<-%d>>" % (U, W)
+        one_longer = "cnl::scaled_integer<cnl::set_digits_t<%s, %d>, cnl::power<-%d>>" % (U, W + 1, W + 1)
+        zs.append(kern.Ob("coefficient-rounding/%d" % W, U, [("double", "d")], "return cnl::_impl::to_rep(cnl::_impl::fp::rounding_conversion<%s>(d));" % T,
+                          ["auto const t = static_cast<cnl::_impl::rep_of_t<%s>>(d * %s); return static_cast<%s>((t + 1) >> 1);" % (one_longer, float(2 ** (W + 1)), U)],
+                          pre=["d >= 0.0", "d < 1.0"], meta={"finding_key": "coefficient-rounding"}))
     return obs, zs
 
 
@@ -241,11 +252,13 @@ def run(tier, seed, work):
     def dsc(ob):
         if ob.key.startswith("exp2-structure"):
             return "exp2 on scaled_integer<%s, power<%d>> is not 2^floor(x) * (1 + p(frac x)) aligned to the result resolution: kernel differs from `%s`" % (ob.key.split("/")[1], ob.meta["E"], ob.refs[0])
+        if ob.key.startswith("coefficient-rounding"):
+            return "rounding_conversion into the %s-bit coefficient format does not round to nearest: kernel differs from `%s`" % (ob.key.split("/")[1], ob.refs[0])
         return "evaluate_polynomial(0) is not 0 for the %s-bit format: exp2 is not exact for integral x" % ob.key.split("/")[1]
     ns = common.settle_eq(r, obs, dsc)
     nz = common.settle_eq(r, zs, dsc)
     common.floor_check(r, "exp2 structure kernels proved", ns["proved"], FLOOR[tier]["structure"])
-    common.floor_check(r, "polynomial-at-zero kernels proved", nz["proved"], 4)
+    common.floor_check(r, "polynomial-at-zero and coefficient-rounding kernels proved", nz["proved"], 7)
     common.floor_check(r, "type facts proved", nw["proved"], len(WF))
     good = [f for f in K if f.status == "proved"]
     r.coverage = {
